@@ -37,6 +37,11 @@ Definition recordTypeApplicationData : byte := 23%N.
 Definition alertLevelWarning : byte := 1%N.
 Definition alertLevelError : byte := 2%N.
 Definition alertCloseNotify : byte := 0%N.
+Definition alertUnexpectedMessage : byte := 10%N.
+Definition alertBadRecordMAC : byte := 20%N.
+Definition alertRecordOverflow : byte := 22%N.
+Definition alertProtocolVersion : byte := 70%N.
+Definition alertNoRenegotiation : byte := 100%N.
 Definition tcpMSSEstimate : nat := 1208.
 Definition recordSizeBoostThreshold : N := (128 * 1024)%N.
 
@@ -429,6 +434,14 @@ Section WithPrims.
       else do '(c2, recs', err') <- write_calls fuel c1 rest; Ok (c2, recs ++ recs', err')
     end.
 
+  (* func (c *Conn) sendAlertLocked(err alert) error.  Result: connection, records written, error returned *)
+  Definition sendAlertLocked (fuel : nat) (c : connOut) (err : byte) : outcome (connOut * list (list byte) * bool) :=
+    let level := if (err =? alertNoRenegotiation)%N || (err =? alertCloseNotify)%N
+                 then alertLevelWarning else alertLevelError in
+    do '(c1, recs, n, werr) <- writeRecordLocked fuel c recordTypeAlert [level; err];
+    if (err =? alertCloseNotify)%N then Ok (c1, recs, werr)              (* return writeErr *)
+    else Ok (out_set_err c1 true, recs, true).                             (* c.out.setErrorLocked(&net.OpError{...}) *)
+
   (* ================================================================================================
      receiving side of Conn, handshake complete, c.haveVers *)
   Record connIn := mkIn {
@@ -438,15 +451,15 @@ Section WithPrims.
                                         after it the peer has closed the connection (io.EOF) *)
     i_input : option (list byte);    (* c.input: unread part of the current application data record *)
     i_warnCount : nat;
-    i_alerts : nat;                  (* number of alerts handed to sendAlert so far *)
+    i_alerts : list byte;            (* the alerts handed to c.sendAlert so far, newest first *)
     i_trace : list (halfConn * list byte) }.
                                      (* ghost, not Go state: the arguments (c.in before the call, b.data) of every
                                         call of c.in.decrypt so far, newest first; only the statement of the
                                         integrity theorems looks at it *)
 
-  Definition in_fail (c : connIn) (raw : list byte) (sendAlert : bool) : connIn :=
+  Definition in_fail (c : connIn) (raw : list byte) (sendAlert : option byte) : connIn :=
     mkIn (setErrorLocked (i_hc c)) (i_vers c) raw (i_input c) (i_warnCount c)
-         (if sendAlert then S (i_alerts c) else i_alerts c) (i_trace c).
+         (match sendAlert with Some a => a :: i_alerts c | None => i_alerts c end) (i_trace c).
 
   (* func (c *Conn) readRecord(want recordType) error with want = recordTypeApplicationData.
      The result carries c.in.err in [hc_err (i_hc _)]. *)
@@ -455,14 +468,14 @@ Section WithPrims.
     | O => Hang
     | S fuel' =>
       let b := i_raw c in
-      if length b <? recordHeaderLen then Ok (in_fail c b false)                  (* io.EOF *)
+      if length b <? recordHeaderLen then Ok (in_fail c b None)                   (* io.EOF *)
       else
         let typ := nth 0 b 0%N in
         let vers := (nth 1 b 0 * 256 + nth 2 b 0)%N in
         let n := N.to_nat (nth 3 b 0 * 256 + nth 4 b 0)%N in
-        if negb (vers =? i_vers c)%N then Ok (in_fail c b true)                   (* alertProtocolVersion *)
-        else if maxCiphertext <? n then Ok (in_fail c b true)                     (* alertRecordOverflow *)
-        else if length b <? recordHeaderLen + n then Ok (in_fail c b false)       (* io.ErrUnexpectedEOF *)
+        if negb (vers =? i_vers c)%N then Ok (in_fail c b (Some alertProtocolVersion))
+        else if maxCiphertext <? n then Ok (in_fail c b (Some alertRecordOverflow))
+        else if length b <? recordHeaderLen + n then Ok (in_fail c b None)        (* io.ErrUnexpectedEOF *)
         else
           let rec_ := firstn (recordHeaderLen + n) b in
           let raw' := skipn (recordHeaderLen + n) b in
@@ -470,32 +483,34 @@ Section WithPrims.
           let tr := (i_hc c, rec_) :: i_trace c in
           let c1 := mkIn hc' (i_vers c) raw' (i_input c) (i_warnCount c) (i_alerts c) tr in
           match r with
-          | None => Ok (in_fail c1 raw' true)                                     (* alertBadRecordMAC *)
+          | None => Ok (in_fail c1 raw' (Some alertBadRecordMAC))
           | Some data =>
-            if maxPlaintext <? length data then Ok (in_fail c1 raw' true)         (* alertRecordOverflow *)
+            if maxPlaintext <? length data then Ok (in_fail c1 raw' (Some alertRecordOverflow))
             else
               let warn := if negb (typ =? recordTypeAlert)%N && (0 <? length data) then 0 else i_warnCount c in
               let c2 := mkIn hc' (i_vers c) raw' (i_input c) warn (i_alerts c) tr in
               if (typ =? recordTypeAlert)%N then
-                if negb (length data =? 2) then Ok (in_fail c2 raw' true)
-                else if (nth 1 data 0 =? alertCloseNotify)%N then Ok (in_fail c2 raw' false)    (* io.EOF *)
+                if negb (length data =? 2) then Ok (in_fail c2 raw' (Some alertUnexpectedMessage))
+                else if (nth 1 data 0 =? alertCloseNotify)%N then Ok (in_fail c2 raw' None)     (* io.EOF *)
                 else if (nth 0 data 0 =? alertLevelWarning)%N then
                   let c3 := mkIn hc' (i_vers c) raw' (i_input c) (S warn) (i_alerts c) tr in
-                  if maxWarnAlertCount <? S warn then Ok (in_fail c3 raw' true)
+                  if maxWarnAlertCount <? S warn then Ok (in_fail c3 raw' (Some alertUnexpectedMessage))
                   else readRecord fuel' c3                                          (* goto Again *)
-                else if (nth 0 data 0 =? alertLevelError)%N then Ok (in_fail c2 raw' false)      (* remote error *)
-                else Ok (in_fail c2 raw' true)
+                else if (nth 0 data 0 =? alertLevelError)%N then Ok (in_fail c2 raw' None)       (* remote error *)
+                else Ok (in_fail c2 raw' (Some alertUnexpectedMessage))
               else if (typ =? recordTypeApplicationData)%N then
                 Ok (mkIn hc' (i_vers c) raw' (Some data) warn (i_alerts c) tr)
+              else if (typ =? recordTypeHandshake)%N then
+                (* typ != want and no renegotiation (server, or Config.Renegotiation = RenegotiateNever) *)
+                Ok (in_fail c2 raw' (Some alertNoRenegotiation))
               else
-                (* ChangeCipherSpec (typ != want), handshake (no renegotiation), unknown type *)
-                Ok (in_fail c2 raw' true)
+                (* ChangeCipherSpec (typ != want), unknown type *)
+                Ok (in_fail c2 raw' (Some alertUnexpectedMessage))
           end
     end.
 
   (* func (c *Conn) Read(b []byte) (n int, err error) after the handshake, len(b) = L.
-     Result: connection, bytes stored into b, err != nil.  The look-ahead for a pending close_notify
-     (which only moves the report of an error into the current call) is not modelled. *)
+     Result: connection, bytes stored into b, err != nil. *)
   Fixpoint conn_Read_loop (emptyLeft fuel : nat) (c : connIn) (L : nat) : outcome (connIn * list byte * bool) :=
     do c1 <- (match i_input c with
               | None => if hc_err (i_hc c) then Ok c else readRecord fuel c
@@ -515,7 +530,19 @@ Section WithPrims.
                 | O => Ok (c2, [], true)                 (* io.ErrNoProgress *)
                 | S e' => conn_Read_loop e' fuel c2 L
                 end
-        | _ => Ok (c2, out, false)
+        | _ =>
+          (* the look-ahead for a waiting alert (close_notify):
+               if ri := c.rawInput; ri != nil && n != 0 && err == nil && c.input == nil &&
+                  len(ri.data) > 0 && recordType(ri.data[0]) == recordTypeAlert { if recErr := c.readRecord(...) ... }
+             The model takes everything the connection will still deliver as already buffered in c.rawInput;
+             when less is buffered the same readRecord call happens at the start of the next Read instead, which
+             only changes which call reports the error, not what is delivered. *)
+          match i_input c2, i_raw c2 with
+          | None, t :: _ =>
+            if (t =? recordTypeAlert)%N then do c3 <- readRecord fuel c2; Ok (c3, out, hc_err (i_hc c3))
+            else Ok (c2, out, false)
+          | _, _ => Ok (c2, out, false)
+          end
         end
       end.
 
@@ -550,6 +577,122 @@ Section WithPrims.
       if (err : bool) then Ok (out, true, c1)
       else do '(out', e, c2) <- read_calls fuel c1 rest; Ok (out ++ out', e, c2)
     end.
+  (* ---------- readRecord during the handshake: want = recordTypeHandshake or recordTypeChangeCipherSpec -------
+     (the `switch want` at the top of readRecord separates the two phases: these wants require
+     !c.handshakeComplete(), want = recordTypeApplicationData above requires c.handshakeComplete()).
+     The pending cipher spec (hc.nextCipher, hc.nextMac of c.in) is kept beside the connection. *)
+  Definition pending := option (cipher_state * option (list byte)).
+
+  (* func (hc *halfConn) changeCipherSpec() error; None = alertInternalError (nothing prepared) *)
+  Definition changeCipherSpec (hc : halfConn) (next : pending) : option halfConn :=
+    match next with
+    | None => None
+    | Some (cs, mac) => Some (mkHC (hc_err hc) (hc_version hc) cs mac (repeat 0%N 8))     (* seq reset to zero *)
+    end.
+
+  Record connHS := mkHS {
+    s_in : connIn;                 (* c.in, c.vers, c.rawInput ..., as above *)
+    s_haveVers : bool;             (* c.haveVers *)
+    s_hand : list byte;            (* c.hand: handshake data waiting to be read *)
+    s_next : pending }.            (* c.in.nextCipher / nextMac *)
+
+  Definition hs_fail (s : connHS) (c : connIn) (raw : list byte) (a : option byte) : connHS :=
+    mkHS (in_fail c raw a) (s_haveVers s) (s_hand s) (s_next s).
+
+  Definition alertInternalError : byte := 80%N.
+
+  Fixpoint readRecord_hs (fuel : nat) (want : byte) (s : connHS) : outcome connHS :=
+    match fuel with
+    | O => Hang
+    | S fuel' =>
+      let c := s_in s in
+      let b := i_raw c in
+      if negb ((want =? recordTypeHandshake) || (want =? recordTypeChangeCipherSpec))%N
+      then Ok (hs_fail s c b (Some alertInternalError))        (* application data requested while in handshake / unknown *)
+      else if length b <? recordHeaderLen then Ok (hs_fail s c b None)
+      else
+        let typ := nth 0 b 0%N in
+        if (want =? recordTypeHandshake)%N && (typ =? 128)%N then Ok (hs_fail s c b (Some alertProtocolVersion))  (* SSLv2 *)
+        else
+        let vers := (nth 1 b 0 * 256 + nth 2 b 0)%N in
+        let n := N.to_nat (nth 3 b 0 * 256 + nth 4 b 0)%N in
+        if s_haveVers s && negb (vers =? i_vers c)%N then Ok (hs_fail s c b (Some alertProtocolVersion))
+        else if maxCiphertext <? n then Ok (hs_fail s c b (Some alertRecordOverflow))
+        else if negb (s_haveVers s) &&
+                ((negb (typ =? recordTypeAlert)%N && negb (typ =? want)%N) || (4096 <=? vers)%N)
+        then Ok (hs_fail s c b (Some alertUnexpectedMessage))     (* first record does not look like a TLS handshake *)
+        else if length b <? recordHeaderLen + n then Ok (hs_fail s c b None)
+        else
+          let rec_ := firstn (recordHeaderLen + n) b in
+          let raw' := skipn (recordHeaderLen + n) b in
+          do '(hc', r) <- decrypt (i_hc c) rec_;
+          let tr := (i_hc c, rec_) :: i_trace c in
+          let c1 := mkIn hc' (i_vers c) raw' (i_input c) (i_warnCount c) (i_alerts c) tr in
+          match r with
+          | None => Ok (hs_fail s c1 raw' (Some alertBadRecordMAC))
+          | Some data =>
+            if maxPlaintext <? length data then Ok (hs_fail s c1 raw' (Some alertRecordOverflow))
+            else
+              let warn := if negb (typ =? recordTypeAlert)%N && (0 <? length data) then 0 else i_warnCount c in
+              let c2 := mkIn hc' (i_vers c) raw' (i_input c) warn (i_alerts c) tr in
+              if (typ =? recordTypeAlert)%N then
+                if negb (length data =? 2) then Ok (hs_fail s c2 raw' (Some alertUnexpectedMessage))
+                else if (nth 1 data 0 =? alertCloseNotify)%N then Ok (hs_fail s c2 raw' None)
+                else if (nth 0 data 0 =? alertLevelWarning)%N then
+                  let c3 := mkIn hc' (i_vers c) raw' (i_input c) (S warn) (i_alerts c) tr in
+                  if maxWarnAlertCount <? S warn then Ok (hs_fail s c3 raw' (Some alertUnexpectedMessage))
+                  else readRecord_hs fuel' want (mkHS c3 (s_haveVers s) (s_hand s) (s_next s))
+                else if (nth 0 data 0 =? alertLevelError)%N then Ok (hs_fail s c2 raw' None)
+                else Ok (hs_fail s c2 raw' (Some alertUnexpectedMessage))
+              else if (typ =? recordTypeChangeCipherSpec)%N then
+                if negb (typ =? want)%N || negb (length data =? 1) || negb (nth 0 data 0 =? 1)%N
+                then Ok (hs_fail s c2 raw' (Some alertUnexpectedMessage))
+                else
+                  (* handshake messages are not allowed to fragment across the CCS *)
+                  match s_hand s with
+                  | _ :: _ => Ok (hs_fail s c2 raw' (Some alertUnexpectedMessage))
+                  | [] =>
+                    match changeCipherSpec hc' (s_next s) with
+                    | None => Ok (hs_fail s c2 raw' (Some alertInternalError))
+                    | Some hc2 =>
+                      Ok (mkHS (mkIn hc2 (i_vers c) raw' (i_input c) warn (i_alerts c) tr) (s_haveVers s) [] None)
+                    end
+                  end
+              else if (typ =? recordTypeApplicationData)%N then
+                Ok (hs_fail s c2 raw' (Some alertUnexpectedMessage))            (* typ != want *)
+              else if (typ =? recordTypeHandshake)%N then
+                if negb (typ =? want)%N then Ok (hs_fail s c2 raw' (Some alertNoRenegotiation))
+                else Ok (mkHS c2 (s_haveVers s) (s_hand s ++ data) (s_next s))  (* c.hand.Write(data) *)
+              else Ok (hs_fail s c2 raw' (Some alertUnexpectedMessage))
+          end
+    end.
+
+  (* readRecord called with wants[0], wants[1], ... until one call returns an error.
+     Result: index of the failing call (None = all succeeded), the connection *)
+  Fixpoint readRecords_hs (fuel : nat) (wants : list byte) (i : nat) (s : connHS) : outcome (option nat * connHS) :=
+    match wants with
+    | [] => Ok (None, s)
+    | w :: rest =>
+      do s' <- readRecord_hs fuel w s;
+      if hc_err (i_hc (s_in s')) then Ok (Some i, s') else readRecords_hs fuel rest (S i) s'
+    end.
+
+  (* ---------- both directions of one Conn --------------------------------------------------------------------
+     Conn.Read on the whole connection: the alert readRecord hands to c.sendAlert goes out through c.out
+     (readRecord calls sendAlert before it returns; nothing else touches c.out in between).
+     Result: connection, bytes stored, err != nil, records written to c.conn *)
+  Record conn := mkConn { c_in : connIn; c_out : connOut }.
+
+  Definition conn_Read_duplex (fuel : nat) (c : conn) (L : nat)
+    : outcome (conn * list byte * bool * list (list byte)) :=
+    do '(cin', out, err) <- conn_Read fuel (c_in c) L;
+    match firstn (length (i_alerts cin') - length (i_alerts (c_in c))) (i_alerts cin') with
+    | [] => Ok (mkConn cin' (c_out c), out, err, [])
+    | a :: _ =>
+      do '(cout', recs, _) <- sendAlertLocked fuel (c_out c) a;
+      Ok (mkConn cin' cout', out, err, recs)
+    end.
+
 End WithPrims.
 
 (* ---------- attacker scripts ---------------------------------------------------------------------------
